@@ -107,11 +107,11 @@ mod verif_rp_c12_events {
         for i in 0..5u64 {
             let key = format!("k{i}").into_bytes();
             let e = SignedEntry::from_parts(&ns, &a, &key, Record { hash: h, len: 1, timestamp: base + i });
-            let res = tokio::time::timeout(std::time::Duration::from_secs(5), bob.insert_remote_entry(e, [7u8; 32], ContentStatus::Missing)).await;
+            let res = tokio::time::timeout(std::time::Duration::from_secs(40), bob.insert_remote_entry(e, [7u8; 32], ContentStatus::Missing)).await;
             assert!(matches!(res, Ok(Ok(_))), "WITNESS remote insert {i} with a slow subscriber: {res:?}");
             want.push(key);
         }
-        let seen = tokio::time::timeout(std::time::Duration::from_secs(5), reader).await.expect("WITNESS the slow subscriber never received all events").unwrap();
+        let seen = tokio::time::timeout(std::time::Duration::from_secs(40), reader).await.expect("WITNESS the slow subscriber never received all events").unwrap();
         assert_eq!(seen, want, "WITNESS the slow subscriber (capacity-1 channel) saw {seen:?}, applied were {want:?}");
         let mut fast = vec![];
         while let Ok(ev) = fast_rx.try_recv() { if let Event::RemoteInsert { entry, .. } = ev { fast.push(entry.key().to_vec()); } }
